@@ -66,8 +66,21 @@ def short_alias(t):
     return am._q(s)
 
 
+def enum_value_spellings(d):
+    """Documented spellings of the values of an enum / flags whose values are the automatic ones: explicit map (default of the
+    base), list, map with blank values."""
+    names = [s for s, _ in d.values]
+    return ["{%s}" % ", ".join("%s: %d" % sv for sv in d.values), "[%s]" % ", ".join(names), "{%s}" % ", ".join("%s: " % n for n in names)]
+
+
+def has_automatic_values(d):
+    return [v for _, v in d.values] == ([1 << i for i in range(len(d.values))] if d.flags else list(range(len(d.values))))
+
+
 def spellings(t):
     """Alternative YAML spellings of one type occurrence (the first is the default used by the base)."""
+    if t[0] == "enumvalues":
+        return enum_value_spellings(t[1])
     out = [am.yaml_type(t)]
     for alt in (am.yaml_type(t, expanded=True), full(t), full(t, alias=True), short_alias(t)):
         if alt is not None and alt not in out:
@@ -86,6 +99,8 @@ def sites(pkg):
             out += [(d.name, sn, st) for sn, st in d.steps]
         elif d.kind == "alias":
             out.append((d.name, None, d.type))
+        elif d.kind == "enum" and has_automatic_values(d):
+            out.append((d.name, "values", ("enumvalues", d)))
     return out
 
 
@@ -108,9 +123,12 @@ def model_text(pkg, choice=None, order=None):
             lines.append("%s: %s" % (d.name, "!flags" if d.flags else "!enum"))
             if d.base:
                 lines.append("  base: %s" % d.base)
-            lines.append("  values:")
-            for s, v in d.values:
-                lines.append("    %s: %d" % (s, v))
+            if (d.name, "values") in choice:
+                lines.append("  values: %s" % choice[(d.name, "values")])
+            else:
+                lines.append("  values:")
+                for s, v in d.values:
+                    lines.append("    %s: %d" % (s, v))
         elif d.kind == "alias":
             lines.append("%s: %s" % (am._name(d), choice.get((d.name, None), am.yaml_type(d.type))))
         else:
@@ -160,6 +178,18 @@ def base_packages(tier):
     pk2.defs.insert(0, Alias("LW", N("Lib.Wrap", N("Rec2"))))
     pk2.defs.insert(0, Record("Holder", [("h", N("Lib.Wrap", N("Rec"))), ("l", N("LW"))]))
     pk2.protocols[0].steps += [("lw", N("LW")), ("holder", N("Holder"))]
+    # containers of optionals / unions (the expanded spelling puts the null case directly under items / values) and enums / flags
+    # with automatic values up to the 64-bit boundary, whose three documented value spellings must mean the same
+    pk2.defs += [Record("Sp", [("vo", Vec(Opt(P("int32")))), ("vo3", Vec(Opt(P("int32")), 3)), ("mo", Map(P("string"), Opt(P("int32")))),
+                               ("ov", Opt(Vec(P("int32")))), ("vu", Vec(Union(P("int32"), P("string")))), ("mv", Map(P("string"), Vec(P("float32")))),
+                               ("oo", Opt(Map(P("string"), P("int32")))), ("vuo", Vec(Union(None, P("int32"), P("string"))))]),
+                 Enum("Seq3", [("a", 0), ("b", 1), ("c", 2)]),
+                 Enum("Fl3", [("r", 1), ("w", 2), ("x", 4)], flags=True),
+                 Enum("Fl8", [("b%d" % i, 1 << i) for i in range(8)], base="uint8", flags=True),
+                 Enum("Fl64", [("f%d" % i, 1 << i) for i in range(64)], base="uint64", flags=True),
+                 Enum("Fl63", [("g%d" % i, 1 << i) for i in range(63)], base="int64", flags=True),
+                 Enum("Seq300", [("s%d" % i, i) for i in range(300)], base="uint16")]
+    pk2.protocols[0].steps += [("sp", N("Sp")), ("seq3", N("Seq3")), ("fl3", N("Fl3")), ("fl8", N("Fl8")), ("fl64", N("Fl64")), ("fl63", N("Fl63")), ("seq300", N("Seq300"))]
     return [pk, pk2]
 
 
